@@ -456,3 +456,14 @@ pub fn t_hashset_from_vec_contains(a: u64, b: u64, c: u64) -> u64 {
     let keys: HashSet<u64> = v.iter().map(|x| x & 1).collect();
     n * 100 + h * 10 + keys.len() as u64
 }
+
+pub fn t_dedup_by_then_with(a: u64, b: u64, c: u64) -> u64 {
+    let mut v = vec![(small(a), 1u64), (small(b), 2), (small(c), 3)];
+    v.sort_by(|x, y| (x.0 & 1).cmp(&(y.0 & 1)).then_with(|| y.0.cmp(&x.0)));
+    let first = v[0].1;
+    v.dedup_by(|later, earlier| later.0 == earlier.0);
+    let mut w = vec3(a, b, c);
+    w.dedup_by_key(|x| *x & 6);
+    let o = small(a).cmp(&small(b)).then(small(b).cmp(&small(c))).reverse();
+    first * 1000 + (v.len() as u64) * 100 + (w.len() as u64) * 10 + (o as i8 + 1) as u64
+}
